@@ -15,12 +15,12 @@ def main():
     seed = int(os.environ.get('VERIF_SEED', '0') or 0)
     rep = runner.Report(a.pid, a.tier, seed)
     known = runner.load_known()
-    for job in props.jobs(a.pid, a.tier):
-        if a.only and a.only not in job.label:
-            continue
-        j = runner.run_job(rep, job, known)
-        print(f'  job {j["label"]}: paths={j["paths"]} queries={j["queries"]} '
-              f'wall={j["wall_s"]}s outcomes={j["outcomes"]}', flush=True)
+    jobs = [j for j in props.jobs(a.pid, a.tier)
+            if not (a.only and a.only not in j.label)]
+    if not jobs:
+        print(f'no jobs for {a.pid}')
+        sys.exit(2)
+    runner.run_jobs(rep, jobs, known)
     code = runner.finish(rep, props.LEVEL_TEXT.get(a.pid, ''))
     sys.exit(code)
 
